@@ -25,5 +25,5 @@ rundemo() {
   else cp $OUT/demo_test.go $WT/zz_seed_demo_test.go; (cd $WT && go test -vet=off -count=1 -run "$(grep -o '^func Test[A-Za-z0-9_]*' $OUT/demo_test.go | sed 's/func //' | paste -sd'|')" . >/tmp/seed/$P.demo.out 2>&1; echo $?); rm -f $WT/zz_seed_demo_test.go; fi
 }
 R1=$(rundemo); echo "demo with change: exit=$R1"; grep -i -m3 "fail" /tmp/seed/$P.demo.out | cut -c1-200
-git stash -q; R2=$(rundemo); echo "demo without change: exit=$R2"; git stash pop -q
+git diff > /tmp/seed/$P.keep.diff; git checkout -q -- .; R2=$(rundemo); echo "demo without change: exit=$R2"; git apply /tmp/seed/$P.keep.diff
 if [ "$R1" != "0" ] && [ "$R2" = "0" ]; then echo "CONFIRMED $P"; else echo "NOT CONFIRMED $P"; fi
